@@ -27,12 +27,12 @@ setup_numba_cache()
 
 PY = sys.executable
 INT32_MIN, INT32_MAX = -2 ** 31, 2 ** 31 - 1
-METRICS = ["euclidean", "cosine", "manhattan", "hamming"]   # surrogate + sqrt, surrogate + log correction, no surrogate, no surrogate + angular trees (not scale free)
+METRICS = ["euclidean", "cosine", "manhattan", "hamming", "jaccard"]   # surrogate + sqrt, surrogate + log correction, no surrogate, no surrogate + angular trees (not scale free)
 REL_TOL = 1e-5
 # cosine is evaluated as 1 - 2**(-log2(...)) in float32: whatever the code does, a value near 1 is subtracted from 1, so the
 # result carries an absolute error of a few float32 ulps of 1.0 (1.2e-7); small cosine distances therefore get an absolute
 # floor of 4 ulp(1.0).  euclidean / manhattan involve no cancellation: purely relative.
-ABS_TOL = {"cosine": 4 * 2.0 ** -23, "euclidean": 0.0, "manhattan": 0.0, "hamming": 0.0}
+ABS_TOL = {"cosine": 4 * 2.0 ** -23, "euclidean": 0.0, "manhattan": 0.0, "hamming": 0.0, "jaccard": 4 * 2.0 ** -23}
 # a sparse matrix cannot hold a 0.0 entry; the module's own convention for a zero distance (adjacency_matrix_representation:
 # "Preserve any distance 0 points") is FLOAT32_EPS - accepted as the weight of an edge whose true length is 0
 FLOAT32_EPS = 2.0 ** -23
@@ -259,9 +259,34 @@ def make_data(case):
             else:
                 pts = (centre + 0.3 * r.standard_normal((s, dim))).clip(0.05, None) * r.uniform(0.5, 4.0, size=(s, 1))
             rows.append(pts)
+    elif metric == "jaccard":
+        # sets over a vocabulary: every cluster has its own block of words, so members of different clusters are disjoint
+        # (jaccard distance exactly 1, where the log-scale surrogate saturates); inside a cluster the sets overlap
+        block = 6
+        dim = block * nc
+        for c, s in enumerate(sizes):
+            if fam == "dup" and c < 2:
+                base = np.zeros(dim); base[c * block: c * block + 3] = 1.0
+                pts = np.tile(base, (max(s, 2 * case["k"] + 3), 1))
+            else:
+                pts = np.zeros((s, dim))
+                for row in pts:
+                    m = int(r.integers(2, block + 1)) if fam != "lattice" else 3
+                    row[c * block + r.choice(block, size=m, replace=False)] = 1.0
+            rows.append(pts)
     elif metric == "hamming":
         # categorical rows (values 1..9, never unit norm): a cluster = a base word with at most two letters changed
         dim = 12
+        if fam == "bits":
+            # 64-bit code words: a cluster = a random word with at most two bits flipped (packed by the worker)
+            for c, s in enumerate(sizes):
+                base = r.integers(0, 2, size=64)
+                pts = np.tile(base, (s, 1))
+                for row in pts:
+                    for _ in range(int(r.integers(0, 3))):
+                        row[int(r.integers(64))] ^= 1
+                rows.append(pts.astype(float))
+            sizes = []
         for c, s in enumerate(sizes):
             base = r.integers(1, 10, size=dim)
             base[c % dim] = 10 + c                      # distinct clusters differ in most letters
@@ -310,6 +335,9 @@ def true_distance(metric, x, y):
         return float(1.0 - (x @ y) / np.sqrt((x @ x) * (y @ y)))
     if metric == "hamming":
         return float((x != y).mean())
+    if metric == "jaccard":
+        u = float(((x != 0) | (y != 0)).sum())
+        return 0.0 if u == 0 else float(1.0 - ((x != 0) & (y != 0)).sum() / u)
     raise ValueError(metric)
 
 
@@ -462,6 +490,10 @@ def worker_main(casefile, outfile):
         try:
             X = make_data(case)
             metric = case["metric"]
+            if case["family"] == "bits":
+                # the same categorical rows as a bit-packed index (uint8 words, metric bit_hamming)
+                X = np.packbits((X.astype(np.int64) % 2).astype(np.uint8), axis=1)
+                metric = "bit_hamming"
             k = min(case["k"], X.shape[0] - 1)
             index = NNDescent(X, n_neighbors=k, metric=metric, random_state=case["index_seed"])
             index.prepare()
@@ -668,7 +700,8 @@ def check_api_record(res, case, rec):
     res.traces += 1
     if rec.get("exception"):
         if rec.get("exception_phase") == "connect":
-            res.violation("connect:exception", "connect_graph raised " + rec["exception"], key_case)
+            res.violation("connect:exception:bit-packed" if fam == "bits" else "connect:exception",
+                          "connect_graph raised " + rec["exception"], key_case)
         else:       # building the index / evaluating the predicate failed: not connect_graph's doing, no verdict
             res.notes.append("infrastructure: %s phase raised %s for %r" % (rec.get("exception_phase"), rec["exception"], key_case))
             res.count("api_infrastructure_errors")
@@ -813,7 +846,7 @@ def run(res, tier, seed, search):
     res.rule = ("kernel: generator streams from API-like / negative / edge / derived states, bit-exact; rejection_sample(n, pool) for "
                 "n <= pool (incl. n = pool, pool = 1, n = 0) vs model exactly (samples + state), non-trivial = n >= 2 and 2n >= pool "
                 "(rejections occur); n > pool and degenerate states only in a killed child.  API: 2..8 separated clusters of sizes 1..40 "
-                "(families gauss / lattice (ties) / dup (>= 2k+3 copies of one point) / per metric euclidean, cosine, manhattan, hamming; "
+                "(families gauss / lattice (ties) / dup (>= 2k+3 copies of one point) / per metric euclidean, cosine, manhattan, hamming, jaccard (clusters with disjoint supports: all cross distances exactly 1); "
                 "k in 2..15, search_size in {3,5,10,25}), graph = adjacency_matrix_representation(neighbor_graph); non-trivial = the graph "
                 "has >= 2 components and at least one smaller than search_size; distinct = hash of the case description")
     quick = tier == "quick"
@@ -827,6 +860,11 @@ def run(res, tier, seed, search):
         cs = []
         for i in range(per_metric):
             cs.append(gen_api_case(rng, metric, fams[(i + seed) % len(fams)], cid)); cid += 1
+        if metric == "hamming":
+            # one bit-packed index per run (the component search closure is typed for float32 rows)
+            b = gen_api_case(rng, "hamming", "bits", cid); cid += 1
+            b["update"] = False
+            cs.insert(0, b)
         cases_by_batch[metric] = cs
         all_cases += cs
     corpus = os.path.join(VERIF, "corpus", "C20.jsonl")
